@@ -60,7 +60,7 @@ theorem drainLoop_zero (m : Machine) (u : UEnv) (s : St) :
 /-- the run loop: not running -> stop; empty queue -> stop; else pop the head and run `asyncStep` on the rest -/
 theorem asyncDrain_cons (m : Machine) (u : UEnv) (fuel : Nat) (s : St) (q : QEv) (rest : List QEv)
     (hq : s.queue = q :: rest) (hrun : s.status = "running") :
-    asyncDrain m u (fuel + 1) s = asyncDrain m u fuel (asyncStep m u q.ev { s with queue := rest }) := by
+    asyncDrain m u (fuel + 1) s = asyncDrain m u fuel (asyncStep m u q { s with queue := rest }) := by
   cases s with
   | mk cfg hist queue status trace err ctx rd errors =>
     simp only at hq hrun
@@ -127,9 +127,9 @@ theorem asyncDrain_status (m : Machine) (u : UEnv) : ∀ (fuel : Nat) (s : St),
       | nil => rw [asyncDrain_nil m u n s hq]; exact Or.inl (Or.inl rfl)
       | cons q rest =>
         rw [asyncDrain_cons m u n s q rest hq hrun]
-        have h1 : StatusStep s.status (asyncStep m u q.ev { s with queue := rest }).status :=
-          asyncStep_status m u q.ev { s with queue := rest }
-        rcases ih (asyncStep m u q.ev { s with queue := rest }) with h2 | h2
+        have h1 : StatusStep s.status (asyncStep m u q { s with queue := rest }).status :=
+          asyncStep_status m u q { s with queue := rest }
+        rcases ih (asyncStep m u q { s with queue := rest }) with h2 | h2
         · exact Or.inl (StatusStep.trans h1 h2)
         · exact Or.inr h2
     · rw [asyncDrain_not_running m u (n + 1) hrun]; exact Or.inl (Or.inl rfl)
@@ -164,7 +164,8 @@ theorem asyncStart_eq (m : Machine) (u : UEnv) (s : St) :
       if (asyncEntered m u s).err.isSome = true then { asyncEntered m u s with status := "stopped" }
       else if (transientLoop (hooksAsyncStart u m) .async m u m.maxIterations (asyncEntered m u s)).err.isSome = true then
         { transientLoop (hooksAsyncStart u m) .async m u m.maxIterations (asyncEntered m u s) with status := "stopped" }
-      else asyncDrain m u (asyncFuel m) (transientLoop (hooksAsyncStart u m) .async m u m.maxIterations (asyncEntered m u s)) := rfl
+      else asyncDrain m u (asyncFuel m) (transientLoop (hooksAsyncStart u m) .async m u m.maxIterations (asyncEntered m u s)) :=
+  asyncStart_phases m u s
 
 theorem syncEntered_status (m : Machine) (u : UEnv) (s : St) : StatusStep "running" (syncEntered m u s).status := by
   unfold syncEntered
